@@ -138,6 +138,13 @@ def run(tier, seed):
                 tr_ = r.pop('trace', None)
                 if tr_:
                     scases.append({'ag': gg, 'trace': tr_, 'warned': r['warned'], 'out': 'ok' if r['out'] == 'ok' else 'raise', 'tag': r['tag']})
+        # ... and of every sum_products call the repository's OWN tests make (pytest plugin harness/tracer_sp.py): their
+        # assertions look at values; the specification looks at what the driver did and whether it told the caller
+        rt = repo_tests_traced(work, ['test/test_sum_product.py', 'test/test_readme.py'] if tier == 'quick' else
+                               ['test/test_sum_product.py', 'test/test_readme.py', 'test/test_viterbi.py', 'test/test_factorize.py'])
+        rcalls = [c for c in rt.get('solver', []) if c.get('trace')]
+        o.extra['repo_test_solver_calls_validated'] = len(rcalls)
+        scases.extend(rcalls)
         if scases:
             sv, st, tr, _ = judge_batch(work / 'solver', 'Trace_Solver', scases, per_shard_min=100, heap='3g')
             o.states += st
